@@ -111,8 +111,18 @@ def deleteKey (s : St) (k : Key) (fg : Bool) : St :=
   | none => s
   | some o => deleteObj s o fg
 
+/-- insertion sort by name (structural, so that concrete runs reduce in the kernel) -/
+def insertByName (o : Obj) : List Obj → List Obj
+  | [] => [o]
+  | x :: xs => if o.key.name ≤ x.key.name then o :: x :: xs else x :: insertByName o xs
+
+def sortByName : List Obj → List Obj
+  | [] => []
+  | x :: xs => insertByName x (sortByName xs)
+
+/-- `List` of one kind: the server returns the items ordered by (namespace, name) -/
 def ofKind (s : St) (kd : Kind) : List Obj :=
-  (s.objs.filter (fun o => o.key.kind = kd)).mergeSort (fun a b => a.key.name ≤ b.key.name)
+  sortByName (s.objs.filter (fun o => o.key.kind = kd))
 
 def Obj.controlledBy (o : Obj) (uid : Nat) : Bool := o.owners.any (fun r => r.ctrl && r.uid == uid)
 
